@@ -1,3 +1,258 @@
 import Driver.Common
-/- stub: model driver for C14 not built yet -/
-def main : IO Unit := Driver.lineLoop (fun _ => "unimplemented")
+import ThriftVerif.Lib.FieldMask
+import ThriftVerif.Generated.C14
+
+/-
+  Model driver for C14.  Line protocol (see harness/cmd/c14/main.go):
+    D <schema>                         set the schema (global descriptor)
+    N <slot> <black> <ty> <n> <hex>*   NewFieldMask into a slot
+    Q <slot> <step>*                   queries, following the returned sub-mask
+    P <slot> <ty> <hexpath>            GetPath
+    J <slot>                           MarshalJSON as a canonical tree
+    T <slot>                           the tree UnmarshalJSON is assumed to see of that text
+    U <slot> <tree>|null               UnmarshalJSON of a decoded document into a slot
+-/
+namespace Driver.C14
+open FieldMask
+
+structure St where
+  sch : Schema
+  slots : List (Nat × Mask)
+
+def St.get (s : St) (i : Nat) : Option Mask := (s.slots.find? (·.1 == i)).map (·.2)
+def St.set (s : St) (i : Nat) (m : Option Mask) : St :=
+  let r := s.slots.filter (·.1 != i)
+  { s with slots := match m with | some m => (i, m) :: r | none => r }
+
+def cfg : Sites := Generated.C14.sites
+
+/-- parse one type expression from a token list -/
+def parseTy : Nat → List String → Option (Ty × List String)
+  | 0, _ => none
+  | f + 1, t :: r =>
+    if t = "l" then do
+      let (e, r') ← parseTy f r
+      pure (.list e, r')
+    else if t = "m" then do
+      let (k, r1) ← parseTy f r
+      let (v, r2) ← parseTy f r1
+      pure (.map k v, r2)
+    else if t.startsWith "n" then do
+      let b ← VL.hexDecode (t.drop 1).toString
+      pure (.named b, r)
+    else none
+  | _, [] => none
+
+def parseFields : Nat → Nat → List String → Option (List FieldD × List String)
+  | _, 0, r => some ([], r)
+  | 0, _, _ => none
+  | f + 1, n + 1, id :: nm :: r => do
+    let i ← id.toInt?
+    let name ← VL.hexDecode nm
+    let (t, r1) ← parseTy 64 r
+    let (fs, r2) ← parseFields f n r1
+    pure ({ id := i, name := name, ty := t } :: fs, r2)
+  | _, _, _ => none
+
+def parseStructs : Nat → List String → Option (List (Bytes × List FieldD) × List String)
+  | 0, r => some ([], r)
+  | n + 1, nm :: cnt :: r => do
+    let name ← VL.hexDecode nm
+    let c ← cnt.toNat?
+    let (fs, r1) ← parseFields (c + 1) c r
+    let (ss, r2) ← parseStructs n r1
+    pure ((name, fs) :: ss, r2)
+  | _, _ => none
+
+def parseTypedefs : Nat → List String → Option (List (Bytes × Ty) × List String)
+  | 0, r => some ([], r)
+  | n + 1, nm :: r => do
+    let name ← VL.hexDecode nm
+    let (t, r1) ← parseTy 64 r
+    let (ts, r2) ← parseTypedefs n r1
+    pure ((name, t) :: ts, r2)
+  | _, _ => none
+
+def parseSchema (toks : List String) : Option Schema :=
+  match toks with
+  | ns :: r => do
+    let n ← ns.toNat?
+    let (ss, r1) ← parseStructs n r
+    match r1 with
+    | nt :: r2 => do
+      let t ← nt.toNat?
+      let (ts, r3) ← parseTypedefs t r2
+      match r3 with
+      | ne :: r4 => do
+        let e ← ne.toNat?
+        if r4.length ≠ e then none else
+        let es ← r4.mapM VL.hexDecode
+        pure { structs := ss, typedefs := ts, enums := es }
+      | _ => none
+    | _ => none
+  | _ => none
+
+def resStr {α} (f : α → String) : Res α → String
+  | .ok a => f a
+  | .err _ => "err"
+  | .panic s => "panic:" ++ s.key
+  | .crash => "crash"
+
+def sig : MaskOpt → String
+  | .none => "nil"
+  | .some m => s!"t{m.typ.toNat}a{VL.boolStr m.allQ}b{VL.boolStr m.isBlack}e{VL.boolStr (m.typ != .invalid)}"
+
+def keyStr : Key → String
+  | .i n => s!"i{n}"
+  | .s b => "s" ++ VL.hexEncode b
+
+def keyLt : Key → Key → Bool
+  | .i a, .i b => decide (a < b)
+  | .s a, .s b => decide (a < b)
+  | .i _, .s _ => true
+  | .s _, .i _ => false
+
+def insertK (p : Key × Mask) : List (Key × Mask) → List (Key × Mask)
+  | [] => [p]
+  | q :: r => if keyLt p.1 q.1 then p :: q :: r else q :: insertK p r
+
+def parseStep (t : String) : Option QStep :=
+  if t.startsWith "f" then (t.drop 1).toString.toInt?.map QStep.field
+  else if t.startsWith "i" then (t.drop 1).toString.toInt?.map QStep.int
+  else if t.startsWith "s" then (VL.hexDecode (t.drop 1).toString).map QStep.str
+  else none
+
+def runSteps : MaskOpt → List String → List String → String
+  | _, [], acc => " ".intercalate acc.reverse
+  | cur, t :: r, acc =>
+    if t = "a" then runSteps cur r (("a" ++ VL.boolStr cur.allQ) :: acc)
+    else if t = "g" then runSteps cur r (("g" ++ sig cur) :: acc)
+    else if t = "c" then
+      match forEachChild cfg cur with
+      | .ok kids =>
+        let ks := kids.foldr insertK []
+        let s := ",".intercalate (ks.map fun (k, m) => keyStr k ++ "=" ++ sig (.some m))
+        runSteps cur r (("c[" ++ s ++ "]") :: acc)
+      | x => " ".intercalate ((resStr (fun _ => "") x :: acc).reverse)
+    else match parseStep t with
+      | none => "bad-op"
+      | some q =>
+        match query cfg cur q with
+        | .ok (nxt, ok) => runSteps nxt r ((VL.boolStr ok ++ ":" ++ sig nxt) :: acc)
+        | x => " ".intercalate ((resStr (fun _ => "") x :: acc).reverse)
+
+def jpStr : JPath → String
+  | .root => "$" | .any => "*" | .int n => s!"i{n}"
+  | .str s => if s = [42] then "*" else "s" ++ VL.hexEncode s   -- the text cannot tell the key "*" from the wildcard
+
+mutual
+def joutStr : JOut → String
+  | .mk p t b hk ks => "(" ++ jpStr p ++ " " ++ toString t.toNat ++ " " ++ VL.boolStr b ++ " " ++
+      (if hk then "[" ++ joutsStr ks ++ "]" else "-") ++ ")"
+def joutsStr : JOuts → String
+  | .nil => ""
+  | .cons j r => joutStr j ++ joutsStr r
+end
+
+def optInt : Option Int → String
+  | none => "x" | some n => toString n
+def optHex : Option Bytes → String
+  | none => "x" | some b => VL.hexEncode b
+
+mutual
+def jinStr : JIn → String
+  | .mk p t b ks => VL.boolStr p.isRoot ++ VL.boolStr p.isAny ++ " " ++ optInt p.i32 ++ " " ++ optInt p.int ++ " " ++
+      optHex p.str ++ " " ++ toString t.toNat ++ " " ++ VL.boolStr b ++ " " ++ toString (jinsLen ks) ++ jinsStr ks
+def jinsStr : JIns → String
+  | .nil => ""
+  | .cons j r => " " ++ jinStr j ++ jinsStr r
+def jinsLen : JIns → Nat
+  | .nil => 0
+  | .cons _ r => 1 + jinsLen r
+end
+
+def parseOptInt (t : String) : Option (Option Int) := if t = "x" then some none else t.toInt?.map some
+def parseOptHex (t : String) : Option (Option Bytes) := if t = "x" then some none else (VL.hexDecode t).map some
+
+mutual
+def parseJIn : Nat → List String → Option (JIn × List String)
+  | 0, _ => none
+  | f + 1, fl :: a :: b :: c :: t :: bl :: n :: r => do
+    let i32 ← parseOptInt a
+    let i ← parseOptInt b
+    let s ← parseOptHex c
+    let tn ← t.toNat?
+    let cnt ← n.toNat?
+    let (ks, r') ← parseJIns f cnt r
+    pure (.mk ⟨fl.startsWith "1", (fl.drop 1).toString.startsWith "1", i32, i, s⟩ (Ft.ofCode tn) (bl = "1") ks, r')
+  | _, _ => none
+def parseJIns : Nat → Nat → List String → Option (JIns × List String)
+  | _, 0, r => some (.nil, r)
+  | 0, _, _ => none
+  | f + 1, n + 1, r => do
+    let (j, r1) ← parseJIn f r
+    let (js, r2) ← parseJIns f n r1
+    pure (.cons j js, r2)
+end
+
+def handle (s : St) (line : String) : St × String :=
+  match VL.toks line with
+  | "D" :: rest =>
+    match parseSchema rest with
+    | some sch => ({ sch := sch, slots := [] }, "ok")
+    | none => (s, "bad-op")
+  | "N" :: slot :: black :: rest =>
+    match slot.toNat?, parseTy 64 rest with
+    | some sl, some (ty, cnt :: ps) =>
+      match cnt.toNat?, ps.mapM VL.hexDecode with
+      | some n, some paths =>
+        if n ≠ paths.length then (s, "bad-op") else
+        let r := newFieldMask cfg s.sch ty (black = "1") paths
+        (s.set sl (match r with | .ok m => some m | _ => none), resStr (fun _ => "ok") r)
+      | _, _ => (s, "bad-op")
+    | _, _ => (s, "bad-op")
+  | "Q" :: slot :: steps =>
+    match slot.toNat? with
+    | some sl =>
+      match s.get sl with
+      | some m => (s, runSteps (.some m) steps [])
+      | none => (s, "no-mask")
+    | none => (s, "bad-op")
+  | "P" :: slot :: rest =>
+    match slot.toNat?, parseTy 64 rest with
+    | some sl, some (ty, [p]) =>
+      match s.get sl, VL.hexDecode p with
+      | some m, some path =>
+        (s, resStr (fun (r : MaskOpt × Bool) => VL.boolStr r.2 ++ ":" ++ sig r.1) (getPath cfg s.sch (.some m) ty path))
+      | _, _ => (s, "no-mask")
+    | _, _ => (s, "bad-op")
+  | ["J", slot] =>
+    match slot.toNat?.bind s.get with
+    | some m => (s, resStr joutStr (marshal m))
+    | none => (s, "no-mask")
+  | ["T", slot] =>
+    match slot.toNat?.bind s.get with
+    | some m => (s, resStr (fun j => jinStr j.toIn) (marshal m))
+    | none => (s, "no-mask")
+  | ["U", slot, "null"] =>
+    match slot.toNat? with
+    | some sl =>
+      let r := unmarshal cfg none
+      (s.set sl (match r with | .ok m => some m | _ => none), resStr (fun _ => "ok") r)
+    | none => (s, "bad-op")
+  | ["U", slot, "bad"] =>
+    match slot.toNat? with
+    | some sl => (s.set sl none, "err")
+    | none => (s, "bad-op")
+  | "U" :: slot :: rest =>
+    match slot.toNat?, parseJIn 100000 rest with
+    | some sl, some (j, []) =>
+      let r := unmarshal cfg (some j)
+      (s.set sl (match r with | .ok m => some m | _ => none), resStr (fun _ => "ok") r)
+    | _, _ => (s, "bad-op")
+  | _ => (s, "bad-op")
+
+end Driver.C14
+
+def main : IO Unit :=
+  Driver.stateLoop (σ := Driver.C14.St) { sch := { structs := [], typedefs := [], enums := [] }, slots := [] } Driver.C14.handle
